@@ -347,11 +347,12 @@ class FaultPoint(EngineBase):
                 V("C03.leak", "%s leaked %r" % (name, e), [cls])
             else:
                 epid = getattr(e, "pid", None)
-                pid_ok = epid == target or (walker and (
-                    epid in fpids or epid in ever_pids))
+                pid_ok = epid == target or (
+                    name.startswith("process_iter") and epid in ever_pids)
                 if not pid_ok:
                     V("C03.cause", "%s raised %r: pid is not the object's "
-                      "pid %d" % (name, e, target), [cls, "pid"])
+                      "pid %d" % (name, e, target), [cls, "pid"] + (
+                          ["walker"] if walker else []))
                 elif cls == "NSP":
                     if epid in final:
                         V("C03.cause", "%s raised %r but pid %s is still "
@@ -510,7 +511,8 @@ class FaultPoint(EngineBase):
                 for (j, _, _, pj) in targets:
                     if j > i and pj not in (1, 1000):
                         pairs.append((i, pi, j, pj))
-            if n > 12 or tier == "quick":
+            if n > 12 or (tier == "quick" and n > 6 and
+                          name not in ("parent", "parents", "children")):
                 rng2 = self.rng("fp2", unit_seed, name)
                 rng2.shuffle(pairs)
                 pairs = pairs[:(3 if tier == "quick" else 25)]
